@@ -330,6 +330,30 @@ static void case_vsh(Rng& rng, uint64_t index)
 	}
 	else
 		count_outside("vector-harmonic-Psi-is-r-times-gradient-of-Ylm");
+	// exactly at a pole the gradient has a finite limit (non-zero for |m| = 1): the value there continues the field next to the pole, taken from the
+	// reference at polar distance 1e-5 (seeded change C17-r7m2 returned zeros at the poles for every m != 0)
+	if(D.th == 0.0 || D.th == M_PI)
+	{
+		ld eps_t = 1e-5L, th2 = (D.th == 0.0) ? eps_t : (ld) M_PI - eps_t;
+		ld st2 = sinl(th2), ct2 = cosl(th2);
+		ld that2[3] = {ct2 * cp, ct2 * sp_, -st2};
+		cld yr2 = Yref(l, m, th2, ph), dth2 = dY_dtheta(l, m, th2, ph), dph2 = cld(0, (ld) m) * yr2 / st2;
+		double e = 0;
+		for(int i = 0; i < 3; i++)
+			e = std::max(e, (double) std::abs(cld(VP[i].real(), VP[i].imag()) - (that2[i] * dth2 + phat[i] * dph2)));
+		judge("vector-harmonic-Psi-at-the-pole-continues-the-field-next-to-it", e, 8.0 * (1 + l) * (1 + l) * (1 + l) * (double) eps_t + 64 * EPS * (1 + l * l * 1e5), [&] { return J().vec("Psi_components_re_im", cj(VP)); });
+	}
+	// a result kept by reference stays what it was when another harmonic is evaluated afterwards (binding a returned temporary to a const reference is
+	// ordinary C++; seeded change C17-r7m1 returned a reference to one buffer shared by all calls)
+	{
+		const std::vector<std::complex<double>>& heldY = Vector_Spherical_Harmonics_Y(l, m, D.th, D.ph);
+		const std::vector<std::complex<double>>& heldP = Vector_Spherical_Harmonics_Psi(l, m, D.th, D.ph);
+		std::vector<std::complex<double>> copyY = heldY, copyP = heldP;
+		const std::vector<std::complex<double>>& otherY = Vector_Spherical_Harmonics_Y(l + 1, -m, 0.5 * (D.th + 1.0), D.ph + 0.3);
+		const std::vector<std::complex<double>>& otherP = Vector_Spherical_Harmonics_Psi(l + 1, -m, 0.5 * (D.th + 1.0), D.ph + 0.3);
+		(void) otherY, (void) otherP;
+		require("a-result-held-by-reference-is-not-changed-by-later-calls", heldY == copyY && heldP == copyP && copyY == VY && copyP == VP, [&] { return J().vec("held_Y_now", cj(heldY)).vec("Y_when_returned", cj(copyY)); });
+	}
 	// conjugation symmetry of the vector harmonics
 	std::vector<std::complex<double>> VYm = Vector_Spherical_Harmonics_Y(l, -m, D.th, D.ph), VPm = Vector_Spherical_Harmonics_Psi(l, -m, D.th, D.ph);
 	double es = 0;
